@@ -33,6 +33,9 @@ type Program struct {
 	Seed      uint64      `json:"seed"`
 	Family    string      `json:"family"`
 	NIfaces   int         `json:"nifaces"`
+	// Sealed: indices of interfaces that also have unexported methods (declared in the
+	// interface package; implementers obtain them by embedding that package's base struct).
+	Sealed []int `json:"sealed,omitempty"`
 	Types     []*Type     `json:"types"`
 	Instances []*Instance `json:"instances"`
 	Procs     []*Proc     `json:"procs,omitempty"`
@@ -328,4 +331,14 @@ func (p *Program) ByNameCount(name string) int {
 		}
 	}
 	return n
+}
+
+// IsSealed reports whether interface k of the program has unexported methods.
+func (p *Program) IsSealed(k int) bool {
+	for _, x := range p.Sealed {
+		if x == k {
+			return true
+		}
+	}
+	return false
 }
